@@ -9,6 +9,10 @@ P = {
          'Theorems for every assignment accepted by greedy_ok_b (hence every tie-break variant): completeness and confinement to one group, colocation, non-increasing processing order, least-loaded group / least-loaded worker at every placement, worker-load and group-load balance bounds by the largest item, for all disjoint groups and non-negative integer costs. Tie: the implementation output is accepted by the extracted checker on every generated case (fast path equality with the extracted deterministic greedy); purity checked by repeated calls, argument snapshots and different hash seeds.',
          'Coq kernel; extraction + driver; integer costs (float rounding of non-integer costs not modelled); processing order among tied layers fixed to the stable order. Closed under the global context.',
          'DESIGN.md §4 C17'),
+ 'C06': (True, 'Coq proof of the rank grid (columns/rows partition, singleton intersections, gradient source) for all W = k*p and every assignment accepted by greedy_ok_b; PrimFloat model of the fraction rule with a vm_compute theorem for all W <= 4096; correspondence for every local rank',
+         'Theorems for all p, k > 0 (W = k*p), all cost maps and every tie-break: columns and rows partition the world into equal duplicate-free parts, each row meets each column in exactly one rank, all inverse workers of a layer lie in one column, every rank has exactly one gradient source (in its row, in the layer column; itself when it is a gradient worker), broadcast flags; bounded theorem: for all W <= 4096 and k | W the IEEE-double computation on k/W yields k. Tie: one KAISAAssignment per local rank (all ranks for W <= 24/48), all public queries compared with the extracted kaisa_view of the implementation inverse assignment, which must be accepted by greedy_ok_b on the columns; equality of the inverse assignment and of the group-creation order across ranks; fraction handling of KAISAAssignment and KFACPreconditioner compared bit-exactly with the PrimFloat model evaluated inside Coq.',
+         'Coq kernel incl. vm_compute; PrimFloat/PrimInt63 kernel primitives; extraction + driver; coqc evaluation of generated float cases; integer costs; fraction theorem bounded by W <= 4096 (named _partial).',
+         'DESIGN.md §4 C06'),
  'C14': (True, 'Coq proof (induction over rows; any element type) + exhaustive-n correspondence of extracted model with get_triu/fill_triu + simdist guard runs',
          'Theorems for every n and element type: pack/unpack round trip, NoDup/completeness/length n(n+1)/2 of the index list, symmetry of any unpacked matrix, symmetric==dense communication for any elementwise combine, rejection of non-square shapes with no communication. Tie: extracted triu_idx / fill_index_matrix equal torch behaviour for every n<=128 (quick; 512 thorough), bit-exact round trips in 4 dtypes x 3 layouts, guard + element counts of the three communication functions under simdist.',
          'Coq kernel; extraction (ExtrOcamlBasic) + ocaml/driver.ml; simdist; torch.triu_indices/advanced indexing compared not verified. Closed under the global context.',
